@@ -813,6 +813,59 @@ pub fn run(ctx: &mut Ctx) {
     }
   }
 
+  // ---- F7: every ordered pair of instructions (host state leaking from one
+  // template into the next: flags, scratch registers, stack slots)
+  {
+    let mut singles: Vec<Vec<u8>> = Vec::new();
+    for op in 0..=255u16 {
+      let op = op as u8;
+      if refcpu::is_undefined(op) || op == 0xcb || is_terminator(op) {
+        continue;
+      }
+      let info = refcpu::info(op, 0);
+      let v = match info.len {
+        1 => vec![op],
+        2 => vec![op, if op == 0xe0 || op == 0xf0 { 0x85 } else { 0x9a }],
+        _ => {
+          if op == 0x01 || op == 0x11 || op == 0x21 || op == 0x31 {
+            vec![op, 0x40, 0xc3] // LD rr,0xC340: keeps pointers in work RAM
+          } else {
+            vec![op, 0x44, 0xc3]
+          }
+        }
+      };
+      singles.push(v);
+    }
+    // one CB instruction of every kind on a register and on (HL)
+    for &cb in [0x00u8, 0x0e, 0x11, 0x1e, 0x22, 0x2e, 0x33, 0x3e, 0x46, 0x7c, 0x86, 0x9d, 0xc6, 0xff].iter() {
+      singles.push(vec![0xcb, cb]);
+    }
+    let stride: usize = if thorough && !sample_mode { 1 } else { 5 };
+    for (i, first) in singles.iter().enumerate() {
+      if let Some(u) = my_unit!() {
+        let mut n = 0;
+        let mut j = (i * 3) % stride;
+        while j < singles.len() {
+          let second = &singles[j];
+          let mut block = first.clone();
+          block.extend_from_slice(second);
+          block.extend_from_slice(&[0xc3, 0x00, 0x02]); // JP 0x0200: a terminator that sets no status
+          if m.prepare(0x0600, &block) {
+            for &fl in [0x00u32, 0xf0, 0x50, 0xa0].iter() {
+              let r = [0x9a00 | fl, 0xc210, 0xc228, 0xc230, 0xdfe0, 0x0600, 0];
+              m.run_named(&r, &format!("{}+{}", opname(first), opname(second)), first, &[u, first[0] as u64, second[0] as u64, j as u64]);
+              n += 1;
+            }
+          }
+          j += stride;
+        }
+        m.ctx.distinct_key(hash_words(&[115, i as u64]));
+        m.ctx.count("cases:F7-ordered-pairs", n);
+      }
+    }
+    m.ctx.sample("F7: ordered pairs of instructions (all unprefixed non-terminators + 14 CB kinds; quick: every 5th second instruction, thorough: all ~66 000 pairs) followed by JP, 4 flag states, pointers in work RAM");
+  }
+
   // ---- F6: random straight-line blocks of 1..64 instructions
   let nblocks: u64 = if sample_mode { 300 } else if thorough { 60_000 } else { 4_000 };
   let units = 64u64;
